@@ -18,9 +18,9 @@ class HarnessError(Exception):
 
 TIERS = {
     # runs for quick; default budget seconds for thorough
-    "C13": {"quick_runs": 6000, "thorough_budget": 900, "xproc_quick": 48, "xproc_thorough": 400},
+    "C13": {"quick_runs": 6000, "thorough_budget": 900, "xproc_quick": 48, "xproc_thorough": 320},
     "C14": {"quick_runs": 5000, "thorough_budget": 900, "xproc_quick": 0, "xproc_thorough": 0},
-    "C19": {"quick_runs": 2500, "thorough_budget": 900, "xproc_quick": 32, "xproc_thorough": 200},
+    "C19": {"quick_runs": 2500, "thorough_budget": 900, "xproc_quick": 32, "xproc_thorough": 160},
 }
 
 
@@ -149,7 +149,7 @@ def do_emit(args, prop, mod):
     else:
         for idx in [int(x) for x in args.emit.split(",") if x]:
             rs = mk_run_seed(args.seed, prop, idx)
-            res = runner.evaluate(rs, None, pristine="none")
+            res = runner.evaluate(rs, None, pristine="none", extra_opts={"deep": args.tier == "thorough"})
             out[str(idx)] = {"fp": res["fp"], "seeded": [list(t) for t in res["seeded"]]}
     print("EMIT " + json.dumps(out))
     return 0
@@ -186,9 +186,11 @@ def run(args):
     print("semsim %s tier=%s VERIF_SEED=%d repo=%s workers=%d runs=%s budget=%s" % (
         prop, args.tier, args.seed, args.repo, args.workers, n_runs, budget))
     sys.stdout.flush()
+    deep = args.tier == "thorough"
     tot = runner.run_batch(prop, args.seed, n_runs=n_runs, budget_s=budget, workers=args.workers,
                            pristine=pristine, xproc=xproc, start=args.start,
-                           keep_fps=args.fingerprints is not None)
+                           keep_fps=args.fingerprints is not None, deep=deep,
+                           chunk=(20 if deep else 40))
     if args.fingerprints:
         with open(args.fingerprints, "w") as f:
             json.dump({str(k): v for k, v in sorted(tot["fps"].items())}, f)
@@ -202,7 +204,7 @@ def run(args):
     violating = list(tot["violating"])
     if xproc and tot["seeded"]:
         idxs = sorted(tot["seeded"])
-        other = runner.fresh_interpreter_digests(prop, args.repo, args.seed, idxs)
+        other = runner.fresh_interpreter_digests(prop, args.repo, args.seed, idxs, deep=deep)
         for idx in idxs:
             mine = [list(t) for t in tot["seeded"][idx]]
             theirs = other[str(idx)]["seeded"]
@@ -236,7 +238,7 @@ def run(args):
                 continue
             reported.add(vkey(v))
             rs = mk_run_seed(args.seed, prop, idx)
-            res = runner.evaluate(rs, None, pristine="all", want_ops=True)
+            res = runner.evaluate(rs, None, pristine="all", want_ops=True, extra_opts={"deep": deep})
             ops = res["ops"]
             if v["cls"] == "cross_process_differs":
                 path = write_replay(args, prop, idx, rs, ops, v, False, len(ops), res["cfg"])
